@@ -409,7 +409,7 @@ func toI(v any) int64 {
 
 func cmpTicket(got messages.Ticket, w tktView) string {
 	if int64(got.TktVNO) != w.vno || got.Realm != w.realm || int64(got.SName.NameType) != w.nameType || !sameStrings(got.SName.NameString, w.comps) ||
-		int64(got.EncPart.EType) != w.etype || !bytes.Equal(got.EncPart.Cipher, w.cipher) || (w.hasKvno && int64(got.EncPart.KVNO) != w.kvno) {
+		int64(got.EncPart.EType) != w.etype || !bytes.Equal(got.EncPart.Cipher, w.cipher) || (w.hasKvno && int64(got.EncPart.KVNO) != w.kvno) || (!w.hasKvno && got.EncPart.KVNO != 0) {
 		return fmt.Sprintf("ticket {vno %d realm %q sname %d %q etype %d kvno %d cipher %x}, cache holds {vno %d realm %q sname %d %q etype %d kvno %d cipher %x}",
 			got.TktVNO, got.Realm, got.SName.NameType, got.SName.NameString, got.EncPart.EType, got.EncPart.KVNO, got.EncPart.Cipher,
 			w.vno, w.realm, w.nameType, w.comps, w.etype, w.kvno, w.cipher)
